@@ -82,15 +82,27 @@ KeyOf(pattern, i) ==
       [] pattern = "triples"  -> (i + 2) \div 3
 Patterns == {"distinct", "pairs", "same", "triples"}
 
+\* For an index tree the table it indexes is added too: a two-level table tree rooted at page 100 whose row j
+\* (entry n + j, rowid j) is the row index entry j points to -- so that the nested lookups of the high level indexed
+\* selects (indexed_select.go) can be run on the same case.  Row TableGap (if any) is missing: a dangling index entry.
+TableRoot == 100
 Tree(sh, isIndex, stale, pattern, ovf) ==
     LET n == Count(sh, isIndex)
         b == Build(sh, 2, 0, isIndex, stale)
-    IN  [nodes |-> b.nodes,
-         ents |-> [i \in 1..n |->
-                    [rowid |-> IF isIndex THEN IntVal(0) ELSE IntVal(2 * i),
-                     rec |-> IF isIndex THEN <<IntVal(KeyOf(pattern, i)), IntVal(i)>> ELSE <<>>,
-                     mtype |-> "",
-                     ov |-> IF ovf /\ i % 2 = 1 THEN <<1000 + i>> ELSE IF ovf /\ i % 4 = 0 THEN <<1000 + i, 2000 + i>> ELSE <<>>]]]
+        half == (n + 1) \div 2
+        tnodes == IF ~isIndex \/ n = 0 THEN <<>>
+                  ELSE (ToString(100) :> [kind |-> "ti", kids |-> <<101>>, keys |-> <<IntVal(half)>>, right |-> 102])
+                       @@ (ToString(101) :> [kind |-> "tl", ents |-> [j \in 1..half |-> n + j]])
+                       @@ (ToString(102) :> [kind |-> "tl", ents |-> [j \in 1..(n - half) |-> n + half + j]])
+    IN  [nodes |-> b.nodes @@ tnodes,
+         ents |-> [i \in 1..(IF isIndex THEN 2 * n ELSE n) |->
+                    IF i <= n
+                      THEN [rowid |-> IF isIndex THEN IntVal(i) ELSE IntVal(2 * i),
+                            rec |-> IF isIndex THEN <<IntVal(KeyOf(pattern, i)), IntVal(i)>> ELSE <<>>,
+                            mtype |-> "",
+                            ov |-> IF ovf /\ i % 2 = 1 THEN <<1000 + i>> ELSE IF ovf /\ i % 4 = 0 THEN <<1000 + i, 2000 + i>> ELSE <<>>]
+                      ELSE [rowid |-> IntVal(i - n), rec |-> <<>>, mtype |-> "",
+                            ov |-> IF ovf /\ i % 3 = 0 THEN <<3000 + i>> ELSE <<>>]]]
 
 Base0 == [op |-> "", root |-> 2, rowid |-> IntVal(0), key |-> <<>>, to |-> <<>>, stop |-> 0, fail |-> 0,
           pro |-> "none", lockfail |-> FALSE, nested |-> "", troot |-> 0, pkcols |-> <<>>, pkdef |-> <<>>, nolock |-> FALSE, mtype |-> ""]
@@ -103,7 +115,7 @@ VARIABLES sh, isIndex, stale, pattern, ovf, o
 vars == <<sh, isIndex, stale, pattern, ovf, o>>
 
 NEnt == Count(sh, isIndex)
-MaxReads == Pages(sh) + 2 * NEnt + 2     \* upper bound on page reads of one operation
+MaxReads == Pages(sh) + 5 * NEnt + 5     \* upper bound on page reads of one operation (incl. nested lookups)
 
 \* the operations of one slice of the case space, for a tree of the given shape
 OpsFor(shape, idx, pat) ==
@@ -125,11 +137,18 @@ OpsFor(shape, idx, pat) ==
                  \cup {[base EXCEPT !.op = "scan_eq", !.key = key, !.stop = k, !.fail = j] : key \in keys, k \in K2s, j \in J}
                  \cup {[base EXCEPT !.op = "scan_range", !.key = K1(v), !.to = K1(w), !.stop = k, !.fail = j] :
                           v \in 0..kmax, w \in 0..kmax, k \in K2s, j \in J \cap {0, 2, 3}}
+        Nested(K, J) ==
+            IF ~idx \/ n = 0 THEN {}
+            ELSE {[base EXCEPT !.op = "index_scan", !.nested = "rowid", !.troot = TableRoot, !.stop = k, !.fail = j] : k \in K, j \in J}
+                 \cup {[base EXCEPT !.op = "scan_eq", !.nested = "rowid", !.troot = TableRoot, !.key = key, !.fail = j] : key \in keys, j \in J}
     IN  CASE Focus = "scan"  -> Scans({0}, {0})
           [] Focus = "rowid" -> Rowids({0})
           [] Focus = "range" -> Ranges({0}, {0}, {0})
           [] Focus = "stop"  -> Scans(1..n, {0}) \cup Ranges(1..n, {1, 2}, {0})
           [] Focus = "fault" -> Scans(0..n, 1..reads) \cup Rowids(1..reads) \cup Ranges({0, 1, 2}, {0, 1}, 1..Min2(reads, 8))
+                                \cup Nested({0, 1}, 1..Min2(2 * reads, 14))
+          \* IndexedSelect / IndexedSelectEq: every index entry is mapped to its table row by a nested rowid lookup
+          [] Focus = "nested" -> Nested(0..n, {0})
           [] Focus = "all"   -> Scans(0..n, 0..reads) \cup Rowids(0..reads) \cup Ranges({0, 1, 2}, {0, 1}, 0..Min2(reads, 8))
 
 \* two levels so that TLC's workers share the cases: initial states pick the tree, one step picks the operation
